@@ -38,7 +38,7 @@ public:
 
   const char * what() const noexcept override
   {
-    static char buf[256];
+    static thread_local char buf[256];
     if (_message != nullptr)
       snprintf(buf, sizeof(buf), _message, _arg.c_str());
     else
